@@ -110,11 +110,23 @@ fn cmd_exec(args: &[String]) -> i32 {
             if let Some(j) = &journal { let _ = std::fs::write(j, format!("{}\n", i + 1)); }
             started.store(t0.elapsed().as_millis() as u64 + 1, Ordering::SeqCst);
             let t = Instant::now();
-            let mut rec = exec_case(&case, dom_max, steps_every > 0 && i % steps_every == 0);
+            // a case may ask for a thread of its own with a given stack size (deep-nesting cases: stack use must
+            // not grow with the nesting depth; an overflow aborts the process and is attributed via the journal)
+            let want_steps = steps_every > 0 && i % steps_every == 0;
+            let mut rec = match case.get("stack_kb").and_then(|v| v.as_u64()) {
+                Some(kb) => {
+                    let c2 = case.clone();
+                    std::thread::Builder::new().stack_size((kb as usize) << 10).spawn(move || exec_case(&c2, dom_max, want_steps))
+                        .expect("spawn").join().unwrap_or_else(|_| json!({"id": case["id"], "doms": [], "runs": [], "crash": "thread panicked"}))
+                }
+                None => exec_case(&case, dom_max, want_steps),
+            };
             started.store(0, Ordering::SeqCst);
             rec["ms"] = json!(t.elapsed().as_millis() as u64);
             let mut o = out.lock().unwrap();
             writeln!(o, "{}", rec).expect("write");
+            // complete lines only on disk: a later case may abort the process
+            o.flush().expect("flush");
         }
         out.lock().unwrap().flush().expect("flush");
     }).expect("spawn");
